@@ -477,20 +477,26 @@ func (vc *VC) evalBuiltin(s *State, call *ast.CallExpr, name string, want int) [
 		d := vc.eval(s, call.Args[0])
 		src := vc.eval(s, call.Args[1])
 		var sl *Term
-		var selems *Term
+		i := BoundVar("ci", SInt)
+		var srcAt *Term
 		if src.Sort == SStr {
 			sl = strLen(src)
-			vc.unsupported(call, "copy from string")
+			srcAt = strAt(src, i)
 		} else {
 			sl = sliceLen(src)
-			selems = sliceElems(src)
+			srcAt = Select(sliceElems(src), i)
 		}
 		n := s.name("ncopy", Ite(Lt(sliceLen(d), sl), sliceLen(d), sl))
-		ne := Fresh("copied", sliceElems(d).Sort)
-		i := BoundVar("ci", SInt)
-		s.assume(Forall([]*Term{i}, Eq(Select(ne, i), Ite(And(Le(IntLit(0), i), Lt(i, n)), Select(selems, i), Select(sliceElems(d), i))), []*Term{Select(ne, i)}))
 		vc.prog.Abstracted["copy() under slice value semantics in "+shortKey(vc.fn.Key)] = true
-		vc.assign(s, call.Args[0], Upd(d, "elems", ne))
+		switch ast.Unparen(call.Args[0]).(type) {
+		case *ast.Ident, *ast.SelectorExpr, *ast.IndexExpr, *ast.StarExpr:
+			ne := Fresh("copied", sliceElems(d).Sort)
+			s.assume(Forall([]*Term{i}, Eq(Select(ne, i), Ite(And(Le(IntLit(0), i), Lt(i, n)), srcAt, Select(sliceElems(d), i))), []*Term{Select(ne, i)}))
+			vc.assign(s, call.Args[0], Upd(d, "elems", ne))
+		default:
+			// destination is a slice expression (a view into another slice): the bytes land in the backing array,
+			// which value-semantics slices do not share; only the count is modelled
+		}
 		_ = dt
 		return []*Term{n}
 	case "print", "println":
